@@ -237,14 +237,14 @@ Qed.
 Lemma line_step_sound lines k line col need rest offs pre :
   nth_error lines k = Some line ->
   reads lines offs pre ->
-  match line_step line (Z.of_nat k + 1) col need rest offs with
+  match line_step false line (Z.of_nat k + 1) col need rest offs with
   | None => True
   | Some (ScanDone o) => o <> [] /\ reads lines o (pre ++ String need rest)
   | Some (ScanCont n r o) =>
       exists mstr, (String need rest = mstr ++ String n r)%string /\ reads lines o (pre ++ mstr)
   end.
 Proof.
-  intros Hnth Hr. unfold line_step.
+  intros Hnth Hr. unfold line_step, scan.
   destruct (slen line =? 0).
   - exists EmptyString. split; [reflexivity|]. rewrite sapp_nil_r. exact Hr.
   - destruct (adjust_col line col need rest) as [col2|] eqn:Eadj; [|exact I].
@@ -266,7 +266,7 @@ Lemma npr_loop_sound : forall ls lines k prev col minCol pending need rest offs 
   skipn k lines = ls ->
   reads lines offs pre ->
   pend_ok lines k prev pending ->
-  npr_loop ls prev (Z.of_nat k + 1) col minCol need rest offs (brk_of pending) = Ok o ->
+  npr_loop false ls prev (Z.of_nat k + 1) col minCol need rest offs (brk_of pending) = Ok o ->
   exists done_ left_,
     (pre ++ pend_str pending ++ String need rest = done_ ++ left_)%string /\ reads lines o done_.
 Proof.
@@ -278,7 +278,7 @@ Proof.
     pose proof (reads_break lines k prev pending offs pre Hr Hp) as Hr1.
     set (offs1 := if brk_of pending then append_position offs (Z.of_nat k + 1 - 1) (prev + 1) else offs) in *.
     pose proof (line_step_sound lines k line col need rest offs1 _ Hnth Hr1) as Hstep.
-    destruct (line_step line (Z.of_nat k + 1) col need rest offs1) as [[o1|n r o1]|]; [| |discriminate].
+    destruct (line_step false line (Z.of_nat k + 1) col need rest offs1) as [[o1|n r o1]|]; [| |discriminate].
     + injection Hrun as <-. destruct Hstep as [_ Hro].
       exists ((pre ++ pend_str pending) ++ String need rest)%string, EmptyString.
       split; [rewrite sapp_nil_r, sapp_assoc; reflexivity|exact Hro].
@@ -309,17 +309,29 @@ Proof.
 Qed.
 
 (** ** Completeness under the guard: the matcher exhausts the value up to trailing line breaks. *)
-Lemma npr_loop_spec : forall ls lines k prev col minCol pending need rest offs pre,
+Lemma scan_line_dq_plain : forall bytes line col need rest offs,
+  no_backslash_b bytes = true ->
+  scan_line_dq bytes 0 line col need rest offs = scan_line bytes line col need rest offs.
+Proof.
+  induction bytes as [|got more IH]; intros line col need rest offs H; [reflexivity|].
+  cbn [no_backslash_b] in H. apply andb_true_iff in H. destruct H as [Hg Hm]. apply negb_true_iff in Hg.
+  cbn [scan_line_dq scan_line]. rewrite Hg.
+  destruct (Ascii.eqb need got).
+  - destruct rest as [|n' r']; [reflexivity|]. apply IH. exact Hm.
+  - apply IH. exact Hm.
+Qed.
+
+Lemma npr_loop_spec : forall dq ls lines k prev col minCol pending need rest offs pre,
   skipn k lines = ls ->
-  lay_ok ls col minCol pending need rest = true ->
+  lay_ok dq ls col minCol pending need rest = true ->
   reads lines offs pre ->
   pend_ok lines k prev pending ->
-  exists o, npr_loop ls prev (Z.of_nat k + 1) col minCol need rest offs (brk_of pending) = Ok o /\
+  exists o, npr_loop dq ls prev (Z.of_nat k + 1) col minCol need rest offs (brk_of pending) = Ok o /\
             wf o /\
             exists rb, read_back lines o = Some rb /\
                        spell_match rb (pre ++ pend_str pending ++ String need rest) = true.
 Proof.
-  induction ls as [|line more IH]; intros lines k prev col minCol pending need rest offs pre Hsk Hok Hr Hp.
+  intros dq. induction ls as [|line more IH]; intros lines k prev col minCol pending need rest offs pre Hsk Hok Hr Hp.
   - (* the lines ran out *)
     cbn [lay_ok] in Hok. apply andb_true_iff in Hok. destruct Hok as [Hc Hall].
     exists offs. cbn [npr_loop]. destruct Hr as [Hwf [rb [Hrb Hfe]]].
@@ -343,12 +355,12 @@ Proof.
       (if is_fold_char n
        then match r with
             | EmptyString => Ascii.eqb n newline
-            | String n' r' => lay_ok more minCol minCol (Some n) n' r'
+            | String n' r' => lay_ok dq more minCol minCol (Some n) n' r'
             end
-       else lay_ok more minCol minCol None n r) = true ->
+       else lay_ok dq more minCol minCol None n r) = true ->
       exists o', match advance n r with
                  | None => Ok o
-                 | Some (n', r') => npr_loop more (slen line) (Z.of_nat k + 1 + 1) minCol minCol n' r' o (is_fold_char n)
+                 | Some (n', r') => npr_loop dq more (slen line) (Z.of_nat k + 1 + 1) minCol minCol n' r' o (is_fold_char n)
                  end = Ok o' /\ wf o' /\
                  exists rb, read_back lines o' = Some rb /\
                             spell_match rb (pre ++ pend_str pending ++ String need rest) = true).
@@ -389,6 +401,24 @@ Proof.
       * exact Hok.
     + destruct (adjust_col line col need rest) as [col2|] eqn:Eadj; [|discriminate].
       pose proof (adjust_col_ge1 _ _ _ _ _ Eadj) as Hc2.
+      (* a double-quoted node inside the guard has no backslash on the scanned bytes: the plain byte scan *)
+      assert (Hscan_eq : scan dq (sdrop (Z.to_nat (col2 - 1)) line) (Z.of_nat k + 1) col2 need rest offs1 =
+                         scan_line (sdrop (Z.to_nat (col2 - 1)) line) (Z.of_nat k + 1) col2 need rest offs1).
+      { unfold scan. destruct dq; [|reflexivity]. apply scan_line_dq_plain.
+        cbn [andb] in Hok. destruct (no_backslash_b (sdrop (Z.to_nat (col2 - 1)) line)); [reflexivity|]. cbn in Hok. discriminate. }
+      rewrite Hscan_eq.
+      assert (Hok' : match gscan (sdrop (Z.to_nat (col2 - 1)) line) need rest with
+                     | (_, None) => true
+                     | (_, Some (n, r)) =>
+                         if is_fold_char n
+                         then match r with
+                              | EmptyString => Ascii.eqb n newline
+                              | String n' r' => lay_ok dq more minCol minCol (Some n) n' r'
+                              end
+                         else lay_ok dq more minCol minCol None n r
+                     end = true).
+      { destruct (dq && negb (no_backslash_b (sdrop (Z.to_nat (col2 - 1)) line))); [discriminate|]. exact Hok. }
+      clear Hok. rename Hok' into Hok.
       pose proof (scan_line_spec (sdrop (Z.to_nat (col2 - 1)) line) lines line (Z.of_nat k + 1) col2 need rest
                                  offs1 (pre ++ pend_str pending)%string ltac:(lia) Hc2 Hnth' eq_refl Hr1) as Hscan.
       destruct (gscan (sdrop (Z.to_nat (col2 - 1)) line) need rest) as [m [[n r]|]] eqn:G;
@@ -417,10 +447,11 @@ Lemma new_position_range_entry lines n minCol need rest :
 Proof. intros Ev. unfold new_position_range, npr_entry. rewrite Ev. reflexivity. Qed.
 
 Lemma npr_entry_sound lines n minCol need rest o :
+  sn_dq n = false ->
   npr_entry lines n minCol need rest = Ok o ->
   exists done_ left_, (String need rest = done_ ++ left_)%string /\ reads lines o done_.
 Proof.
-  unfold npr_entry. intros H.
+  unfold npr_entry. intros Hdq H. rewrite Hdq in H.
   destruct (sn_block n).
   - destruct (sn_line n + 1 <=? 0) eqn:E; [discriminate|]. apply Z.leb_gt in E.
     replace (sn_line n + 1) with (Z.of_nat (Z.to_nat (sn_line n)) + 1) in H by lia.
@@ -441,17 +472,18 @@ Qed.
     it found nothing and returned the one-column fallback, or its positions are well formed, inside the file and
     read back — in order, up to folding — a PREFIX of the value. *)
 Theorem positions_spell_prefix : forall lines n minCol pos,
+  sn_dq n = false ->
   new_position_range lines n minCol = Ok pos ->
   pos = fallback n \/
   (wf pos /\ exists rb done_ left_,
       read_back lines pos = Some rb /\ fold_eq rb done_ = true /\ sn_value n = (done_ ++ left_)%string).
 Proof.
-  intros lines n minCol pos H.
+  intros lines n minCol pos Hdq H.
   destruct (sn_value n) as [|need rest] eqn:Ev.
   - unfold new_position_range in H. rewrite Ev in H. injection H as <-. left. reflexivity.
   - rewrite (new_position_range_entry _ _ _ _ _ Ev) in H.
     destruct (npr_entry lines n minCol need rest) as [o|w] eqn:E; [|discriminate].
-    destruct (npr_entry_sound _ _ _ _ _ _ E) as [d [l [Hdl [Hwf [rb [Hrb Hfe]]]]]].
+    destruct (npr_entry_sound _ _ _ _ _ _ Hdq E) as [d [l [Hdl [Hwf [rb [Hrb Hfe]]]]]].
     destruct o as [|p o'].
     + injection H as <-. left. reflexivity.
     + injection H as <-. right. split; [exact Hwf|]. exists rb, d, l. repeat split; assumption.
@@ -474,14 +506,14 @@ Proof.
   { unfold npr_entry. destruct (sn_block n).
     - apply andb_true_iff in H. destruct H as [Hl Hok]. apply Z.leb_le in Hl.
       replace (sn_line n + 1 <=? 0) with false by (symmetry; apply Z.leb_gt; lia).
-      destruct (npr_loop_spec _ lines (Z.to_nat (sn_line n)) 0 minCol minCol None need rest [] EmptyString
+      destruct (npr_loop_spec (sn_dq n) _ lines (Z.to_nat (sn_line n)) 0 minCol minCol None need rest [] EmptyString
                   eq_refl Hok (reads_nil lines) (pend_ok_none _ _ _)) as [o [Ho [Hwf [rb [Hrb Hsp]]]]].
       replace (Z.of_nat (Z.to_nat (sn_line n)) + 1) with (sn_line n + 1) in Ho by lia.
       cbn [brk_of] in Ho. exists o. repeat split; [exact Ho|exact Hwf|]. exists rb. split; [exact Hrb|exact Hsp].
     - apply andb_true_iff in H. destruct H as [Hl Hok]. apply Z.leb_le in Hl.
       replace (sn_line n <=? 0) with false by (symmetry; apply Z.leb_gt; lia).
       cbv zeta in Hok |- *.
-      destruct (npr_loop_spec _ lines (Z.to_nat (sn_line n - 1)) 0 _ minCol None need rest [] EmptyString
+      destruct (npr_loop_spec (sn_dq n) _ lines (Z.to_nat (sn_line n - 1)) 0 _ minCol None need rest [] EmptyString
                   eq_refl Hok (reads_nil lines) (pend_ok_none _ _ _)) as [o [Ho [Hwf [rb [Hrb Hsp]]]]].
       replace (Z.of_nat (Z.to_nat (sn_line n - 1)) + 1) with (sn_line n) in Ho by lia.
       cbn [brk_of] in Ho. exists o. repeat split; [exact Ho|exact Hwf|]. exists rb. split; [exact Hrb|exact Hsp]. }
